@@ -87,6 +87,13 @@ def showAs (kind : String) (o : Outcome String) : String :=
 def signMaster (ks : Nat) : Sm9SignMasterKey := ⟨ks, TwistPoint.g_mul ks⟩
 def encMaster (ke : Nat) : Outcome Sm9EncMasterKey := (Point.g_mul ke).map fun p => ⟨ke, p⟩
 
+/-- `aff:<ke>`: the harness holds the master public key in affine form (`g_mul(ke).to_affine_point()`, as after decoding
+    it from octets); plain `<ke>`: the Jacobian output of `g_mul` -/
+def keArg (s : String) : Option (Nat × Bool) :=
+  if s.startsWith "aff:" then (nat32 (s.drop 4).toString).map fun k => (k, true) else (nat32 s).map fun k => (k, false)
+def encMasterA (ka : Nat × Bool) : Outcome Sm9EncMasterKey :=
+  (encMaster ka.1).map fun m => if ka.2 then ⟨m.ke, m.ppube.to_affine_point⟩ else m
+
 /-- `Option` returned by `extract_*` → error "None" -/
 def orNone {α} (o : Outcome (Option α)) : Outcome α :=
   o.bind fun x => match x with | some v => .ok v | none => .err "None"
@@ -189,6 +196,14 @@ def encTamper (ct id : List UInt8) (kind : String) (arg : Option String) : Optio
   | "trunc" => do let l ← (← arg).toNat?; pure (ct.take l, id)
   | "c1" => do let n ← bytesOfHex (← arg); if ct.length < 65 then none else pure (n ++ ct.drop 65, id)
   | "id" => some (ct, id ++ [0x21])
+  | "xor" => do
+    let a ← arg
+    match a.splitOn ":" with
+    | [ps, mk] =>
+      let mk ← (bytesOfHex mk).bind List.head?
+      let idx ← (ps.splitOn ",").mapM String.toNat?
+      if idx.any (· ≥ ct.length) then none else pure (ct.mapIdx fun i x => if idx.contains i then x ^^^ mk else x, id)
+    | _ => none
   | _ => none
 
 def svOp (ks : Nat) (id msg : List UInt8) (cands : List (List UInt8)) (tam : Option (String × Option String)) : String :=
@@ -212,8 +227,8 @@ def svOp (ks : Nat) (id msg : List UInt8) (cands : List (List UInt8)) (tam : Opt
         showAs "Verify" ((Point.from_bytes (sig.drop 32)).bind fun s2 =>
           (m.verify_sign id msg (beNat (sig.take 32)) s2).map fun _ => "verified")
 
-def tamperOp (ke : Nat) (id msg : List UInt8) (cands : List (List UInt8)) (kind : String) (arg : Option String) : String :=
-  match encMaster ke with
+def tamperOp (ke : Nat × Bool) (id msg : List UInt8) (cands : List (List UInt8)) (kind : String) (arg : Option String) : String :=
+  match encMasterA ke with
   | .err _ => "ERR"
   | .panic => "PANIC"
   | .ok m =>
@@ -236,8 +251,8 @@ def alter (p : Point) (offcurve : Bool) : Outcome Point :=
     Point.from_bytes (b.mapIdx fun i x => if i = 64 then x ^^^ 1 else x)
   else Point.from_bytes p.point_neg.to_bytes_be
 
-def exchOp (ke : Nat) (ida idb : List UInt8) (klen : Nat) (cands : List (List UInt8)) (tam : List String) : String :=
-  match encMaster ke with
+def exchOp (ke : Nat × Bool) (ida idb : List UInt8) (klen : Nat) (cands : List (List UInt8)) (tam : List String) : String :=
+  match encMasterA ke with
   | .err _ => "ERR"
   | .panic => "PANIC"
   | .ok m =>
@@ -380,8 +395,8 @@ def run (toks : List String) : Option String :=
     let tam := match rest with | [] => none | kind :: r => some (kind, r.head?)
     pure (svOp ks id msg cands tam)
   | ["s9_enc", ke, id, msg, cands] => do
-    let ke ← nat32 ke; let id ← bytesOfHex id; let msg ← bytesOfHex msg; let cands ← parseCands cands
-    pure (showAs "Encrypt" ((encMaster ke).bind fun m => (m.encrypt id msg cands).map fun r =>
+    let ke ← keArg ke; let id ← bytesOfHex id; let msg ← bytesOfHex msg; let cands ← parseCands cands
+    pure (showAs "Encrypt" ((encMasterA ke).bind fun m => (m.encrypt id msg cands).map fun r =>
       hexB r.val ++ " " ++ logStr r.used r.rest))
   | ["s9_dec", ke, id, id2, ct] => do
     let ke ← nat32 ke; let id ← bytesOfHex id; let id2 ← bytesOfHex id2; let ct ← bytesOfHex ct
@@ -390,15 +405,16 @@ def run (toks : List String) : Option String :=
       | .panic => "PANIC"
       | .ok key => showAs "Decrypt" ((key.decrypt id2 ct).map hexB))
   | "s9_tamper" :: ke :: id :: msg :: cands :: kind :: rest => do
-    let ke ← nat32 ke; let id ← bytesOfHex id; let msg ← bytesOfHex msg; let cands ← parseCands cands
+    let ke ← keArg ke; let id ← bytesOfHex id; let msg ← bytesOfHex msg; let cands ← parseCands cands
     pure (tamperOp ke id msg cands kind rest.head?)
   | ["s9_exch", ke, ida, idb, klen, ra, rb, tam] => do
-    let ke ← nat32 ke; let ida ← bytesOfHex ida; let idb ← bytesOfHex idb; let klen ← klen.toNat?
+    let ke ← keArg ke; let ida ← bytesOfHex ida; let idb ← bytesOfHex idb; let klen ← klen.toNat?
     let cands ← parseCands (ra ++ "," ++ rb)
     pure (exchOp ke ida idb klen cands (tam.splitOn ","))
   | ["s9_keygen", what, cands] => do
     let cands ← parseCands cands
-    pure (if what = "sign" then
+    -- `signfn` / `encfn`: the free functions `generate_*_master_key` (the same two statements as the associated functions)
+    pure (if what = "sign" ∨ what = "signfn" then
         showAs "Keygen" ((sign_master_key_generate cands).map fun r =>
           hex32 r.val.ks ++ " " ++ g2aff r.val.ppubs ++ " " ++ logStr r.used r.rest)
       else
